@@ -14,7 +14,7 @@ def run_real(progs, tag, extra=None, timeout=1200):
     recs = []
     for p in progs:
         r = {"id": p["id"], "src": p["src"]}
-        for k in ("budget", "fault", "opts", "snap"):
+        for k in ("budget", "fault", "opts", "snap", "deadline_ms"):
             if k in p:
                 r[k] = p[k]
         recs.append(r)
